@@ -851,10 +851,11 @@ impl StagingStore for FsOcflStore {
 
         let content_dir = paths::head_content_path(&object_root, inventory);
 
-        if content_dir.exists() {
+        // A failure to examine a file must not be mistaken for there being nothing to clean up
+        if util::metadata_if_exists(&content_dir)?.is_some() {
             for file in WalkDir::new(&content_dir) {
                 let file = file?;
-                if file.path().is_file() {
+                if util::metadata_if_exists(file.path())?.map_or(false, |m| m.is_file()) {
                     let relative = pathdiff::diff_paths(file.path(), &object_root)
                         .unwrap()
                         .to_string_lossy()
@@ -871,7 +872,7 @@ impl StagingStore for FsOcflStore {
             }
 
             // An earlier attempt that failed part way through may have left empty directories behind
-            if content_dir.exists() {
+            if util::metadata_if_exists(&content_dir)?.is_some() {
                 util::clean_dirs_down(&content_dir)?;
             }
         }
@@ -1480,12 +1481,17 @@ fn list_extensions(extensions_dir: impl AsRef<Path>) -> Result<Vec<String>> {
 
 /// Returns all of the files in the directory that match the given prefix
 fn find_files(dir: impl AsRef<Path>, prefix: &str) -> Result<Vec<OsString>> {
-    Ok(fs::read_dir(dir.as_ref())?
-        .flatten()
-        .map(|entry| entry.file_name())
-        .filter(|name| name.len() > prefix.len())
-        .filter(|name| name.to_str().map_or(false, |name| name.starts_with(prefix)))
-        .collect())
+    let mut files = Vec::new();
+
+    for entry in fs::read_dir(dir.as_ref())? {
+        // A directory that cannot be read completely must not be mistaken for an empty one
+        let name = entry?.file_name();
+        if name.len() > prefix.len() && name.to_str().map_or(false, |name| name.starts_with(prefix)) {
+            files.push(name);
+        }
+    }
+
+    Ok(files)
 }
 
 /// Identifies the first version declaration file in the directory and returns the portion of the
